@@ -66,14 +66,14 @@ KINDS = {
 }
 
 
-def gen_history(rng, tier):
+def gen_history(rng, tier, scale=1.0):
     """Returns (ops, estimated number of allocations)."""
     ops = []
     nroots = rng.choice([8, 64, 256, 1024])
     ops.append("(set-roots! %d)" % nroots)
     phases = rng.range(2, 6)
-    obj_budget = 150_000 if tier == "quick" else 600_000     # objects per history
-    byte_budget = 150_000_000 if tier == "quick" else 600_000_000
+    obj_budget = int((150_000 if tier == "quick" else 600_000) * scale)     # objects per history
+    byte_budget = int((150_000_000 if tier == "quick" else 600_000_000) * scale)
     est = 0
     # objects allocated per mk call, roughly
     per_obj = {0: None, 6: 12, 8: 4, 9: 60, 10: 130, 12: 3}
@@ -106,16 +106,17 @@ def gen_history(rng, tier):
 
 
 def generate(rng, tier, index, seed):
-    ops, est = gen_history(rng.fork("hist"), tier)
+    variant = "asan" if rng.chance(1, 8) else "sim"
+    # the asan variant's 32-byte pad makes first-fit allocation slow (unusable 32-byte chunks pile up): smaller histories there
+    ops, est = gen_history(rng.fork("hist"), tier, 0.1 if variant == "asan" else 1.0)
     mode = rng.weighted([("none", 3), ("bernoulli", 3), ("points", 2), ("aftergrow", 2)])
-    gc = {"mode": mode, "heapcheck_every": 1, "growth_c": GROWTH_C}
+    gc = {"mode": mode, "heapcheck_every": 1, "growth_c": GROWTH_C, "max_forced": 150 if variant == "asan" else 400}
     if mode == "bernoulli":
         gc["p1024"] = max(1, min(rng.choice([1, 2, 8, 64]), 250 * 1024 // max(1, est)))
         gc["seed"] = rng.below(1 << 30)
     elif mode == "points":
         gc["points"] = sorted(set(rng.below(max(100, est)) for _ in range(rng.range(1, 60))))
     knobs = {}
-    variant = "asan" if rng.chance(1, 8) else "sim"
     if rng.chance(1, 4) and variant == "sim":
         knobs = {"fresh_ctx": True, "heap": rng.choice([0, 64 * 1024, 512 * 1024, 1024 * 1024, 8 * 1024 * 1024]),
                  "imports": ["(srfi 18)", "(srfi 69)"], "prepad": rng.choice([0, 4096, 1 << 20])}
